@@ -1,6 +1,7 @@
 package main
 
 import (
+	"encoding/json"
 	"flag"
 	"fmt"
 	"os"
@@ -21,6 +22,25 @@ func usage() {
 func main() {
 	if len(os.Args) > 1 && os.Args[1] == "explain" {
 		explain(os.Args[2:])
+		return
+	}
+	if len(os.Args) > 1 && os.Args[1] == "describe" {
+		// the registered properties with what their rules decide (used to generate MANIFEST.json)
+		type desc struct {
+			ID          string         `json:"id"`
+			Title       string         `json:"title"`
+			Explanation string         `json:"explanation"`
+			Floors      map[string]int `json:"floors"`
+			Borrows     []Borrow       `json:"borrows,omitempty"`
+		}
+		var out []desc
+		for _, id := range sortedIDs() {
+			p := registry[id]
+			out = append(out, desc{p.ID, p.Title, p.Explanation, p.Floors, p.Borrows})
+		}
+		b, _ := json.MarshalIndent(out, "", " ")
+		os.Stdout.Write(b)
+		fmt.Println()
 		return
 	}
 	selftestOnly := false
@@ -153,6 +173,15 @@ func main() {
 		}
 	}
 	os.Exit(exit)
+}
+
+func sortedIDs() []string {
+	var ids []string
+	for id := range registry {
+		ids = append(ids, id)
+	}
+	sort.Strings(ids)
+	return ids
 }
 
 func explain(args []string) {
